@@ -122,10 +122,13 @@ func httpErrorFromResponse(statusCode int, contentType string, src *bytes.Buffer
 		stat.Code = int32(httpStatusCodeToRPC(statusCode)) //nolint:gosec
 		stat.Message = http.StatusText(statusCode)
 	}
-	connectErr := connect.NewWireError(
-		connect.Code(stat.GetCode()), //nolint:gosec // No information loss.
-		errors.New(stat.GetMessage()),
-	)
+	code := connect.Code(stat.GetCode()) //nolint:gosec // No information loss.
+	if code == 0 {
+		// A status body without a code on a failed response is still a
+		// failure: infer the code from the HTTP status.
+		code = httpStatusCodeToRPC(statusCode)
+	}
+	connectErr := connect.NewWireError(code, errors.New(stat.GetMessage()))
 	for _, msg := range stat.GetDetails() {
 		errDetail, _ := connect.NewErrorDetail(msg)
 		connectErr.AddDetail(errDetail)
